@@ -32,6 +32,9 @@ def run(tier):
         for g in ('equil', 'scale'):
             chk.clause('C05.' + g, 'R3 oracle group `%s` of ?gssvx' % g)
         chk.clause('C05.phases', 'R3 oracle group `phases` of ?gssvx')
+        chk.clause('C05.fixup', 'fixupL relabels the row subscripts of L for every matrix that has a column')
+        from ..rules import misc as _misc
+        _misc.fixup_unconditional_rule(chk, 'C05.fixup', prog, cfgname)
         chk.clause('C05.refine', 'R3 oracle group `refine` of ?gssvx (arguments of ?gsrfs)')
         chk.clause('C01.D2', 'R3/R7 permutation roles and solve order of ?gstrs')
         nleaves = 0
